@@ -88,6 +88,9 @@ func encoder(ctl *faultCtl, what string) kvstore.ObjectToBytes[int] {
 		if ctl != nil && ctl.hit(what) {
 			return []byte{0xee, 0xee}, errInjected // garbage together with the error
 		}
+		if v == 7 {
+			return []byte{}, nil // a legal encoding of zero length: an empty stored value is still a stored value
+		}
 		return []byte{byte(v)}, nil
 	}
 }
@@ -97,11 +100,27 @@ func decoder(ctl *faultCtl, what string) kvstore.BytesToObject[int] {
 		if ctl != nil && ctl.hit(what) {
 			return 99, 0, errInjected
 		}
+		if len(b) == 0 {
+			return 7, 0, nil
+		}
 		if len(b) != 1 {
 			return 0, 0, fmt.Errorf("bad encoding %x", b)
 		}
 		return int(b[0]), 1, nil
 	}
+}
+
+// rawVal decodes stored bytes with the reference codec (7 has the zero-length encoding); -1000 = not a valid encoding.
+func rawVal(raw []byte) int {
+	switch len(raw) {
+	case 0:
+		return 7
+	case 1:
+		if raw[0] != 7 {
+			return int(raw[0])
+		}
+	}
+	return -1000
 }
 
 // ---------------- TypedValue history system ----------------
@@ -274,7 +293,7 @@ func (in *tvInst) Apply(i int) string {
 	// the stored bytes are the encoding of the last successfully written value
 	raw, rerr := in.base.Get(tvKey)
 	if in.present {
-		if rerr != nil || len(raw) != 1 || int(raw[0]) != in.val {
+		if rerr != nil || rawVal(raw) != in.val {
 			return fmt.Sprintf("%s|stored-bytes: store holds %x (err %v), expected the encoding of %d", cls, raw, rerr, in.val)
 		}
 	} else if rerr == nil {
@@ -509,14 +528,14 @@ func scenarios() []*sched.Scenario {
 			vrt.Fail("cache-incoherent|presence", "raw key present=%v but cached Get err=%v Has=%v fresh Get err=%v", rerr == nil, err, h, ferr)
 			return
 		}
-		if rerr == nil && (int(raw[0]) != v || fv != v) {
-			vrt.Fail("cache-incoherent|value", "raw key holds %d, cached Get returns %d, fresh Get %d", raw[0], v, fv)
+		if rerr == nil && (rawVal(raw) != v || fv != v) {
+			vrt.Fail("cache-incoherent|value", "raw key holds %x, cached Get returns %d, fresh Get %d", raw, v, fv)
 			return
 		}
 		if len(allowed) > 0 {
 			ok := false
 			for _, a := range allowed {
-				if (a < 0 && rerr != nil) || (rerr == nil && a == int(raw[0])) {
+				if (a < 0 && rerr != nil) || (rerr == nil && a == rawVal(raw)) {
 					ok = true
 				}
 			}
